@@ -4,13 +4,15 @@
      TEntry  a row of the live jump table           = the row of Gen.tables, and it satisfies wf_entry
      TMem    a memorySize function on a stack       = regions_size of its operand regions
      TDyn    a dynamicGas function on a state       = dyn_gas (cost and error/no error)
+     TExec   an execute function as read by the go/ast extractor = exec_info (arity, memory accesses, class)
+     TPre    RequiredGas of a precompiled contract on an input = pre_gas
      TArity  stack behaviour of an opcode observed through the interpreter = minStack / pushes of its row
      TRun    a whole program run by evm.Call        = call_top with the concrete oracle below
    The concrete oracle gives word semantics to the opcode subset the harness's program generator uses;
    anything else makes the model answer FUnmodelled, which never matches an observation. *)
 From Coq Require Import ZArith List Bool String Lia NArith.
 From V.Base Require Import Hex.
-From V.C11 Require Import Model Gen.
+From V.C11 Require Import Model Gen Precompile.
 Import ListNotations.
 Local Open Scope Z_scope.
 
@@ -48,11 +50,46 @@ Definition push_value (c : list Z) (pc n : Z) : Z :=
 
 Definition b2z (b : bool) : Z := if b then 1 else 0.
 
-Definition conc_plain (opc : Z) (v : env) (fr : frame) (w : unit) : plain * unit :=
+(* ---- the world of the concrete oracle --------------------------------------------------------------
+   memory: per call depth, the list of byte strings written (latest first) or None once something the
+   oracle does not know (call data, return data, hashes...) has been copied into it;
+   warm: addresses the access list holds (gasAuthCall is the only EIP-2929 user in these tables);
+   self: the code installed at the account under test (a CALL to it from init code runs that code);
+   selfbal: the account under test holds a balance (top-level call carried value);
+   sub: 0 main chain, 1 sub-chain with the creator not whitelisted, 2 whitelisted *)
+Definition mem := list (Z * list Z).
+Fixpoint read_byte (m : mem) (i : Z) : Z :=
+  match m with
+  | [] => 0
+  | (o, bs) :: r => if (o <=? i) && (i <? o + zlen bs) then nth (Z.to_nat (i - o)) bs 0 else read_byte r i
+  end.
+Definition read_mem (m : mem) (off size : Z) : list Z :=
+  map (fun k => read_byte m (off + Z.of_nat k)) (seq 0 (Z.to_nat size)).
+Definition word_bytes (v : Z) : list Z := map (fun i => (v / 2 ^ (8 * (31 - Z.of_nat i))) mod 256) (seq 0 32).
+
+Record world := mkWd { w_warm : list Z; w_mems : list (Z * option mem); w_self : list Z; w_selfbal : bool; w_sub : Z }.
+Definition get_mem (w : world) (d : Z) : option mem :=
+  match find (fun p => fst p =? d) (w_mems w) with Some (_, m) => m | None => Some [] end.
+Definition set_mem (w : world) (d : Z) (m : option mem) : world :=
+  mkWd (w_warm w) ((d, m) :: w_mems w) (w_self w) (w_selfbal w) (w_sub w).
+Definition write_mem (w : world) (d : Z) (off : Z) (bs : list Z) : world :=
+  match get_mem w d with Some m => set_mem w d (Some ((off, bs) :: m)) | None => w end.
+Definition warm (w : world) (a : Z) : world :=
+  mkWd (a :: w_warm w) (w_mems w) (w_self w) (w_selfbal w) (w_sub w).
+
+
+(* opcodes whose pushed value the oracle does not know (hashes, state reads, block data, the arithmetic
+   that property C10 owns, the staking opcodes): it answers 0; the program generator always POPs it *)
+Definition opaque_ops : list Z :=
+  [4; 5; 6; 7; 8; 9; 10; 11; 18; 19; 26; 27; 28; 29; 32; 48; 49; 50; 51; 52; 53; 58; 59; 63; 64; 65; 66; 67; 68; 69; 70; 71;
+   72; 73; 74; 84; 92; 236; 237; 238; 239; 246].
+
+Definition conc_plain (opc : Z) (v : env) (fr : frame) (w : world) : plain * world :=
   let s := f_stk fr in let a := sget s 0 in let b := sget s 1 in let c := sget s 2 in
-  let pc := f_pc fr in
-  let ok1 (x : Z) := (POk [x mod W256] pc 0, tt) in
-  let ok0 := (POk [] pc 0, tt) in
+  let pc := f_pc fr in let d := v_depth v in
+  let ok1 (x : Z) := (POk [x mod W256] pc 0, w) in
+  let ok0 := (POk [] pc 0, w) in
+  let unknown_if (nz : bool) := (POk [] pc 0, if nz then set_mem w d None else w) in
   if opc =? 0 then ok0
   else if opc =? 1 then ok1 (a + b) else if opc =? 2 then ok1 (a * b) else if opc =? 3 then ok1 (a - b)
   else if opc =? 16 then ok1 (b2z (a <? b)) else if opc =? 17 then ok1 (b2z (b <? a))
@@ -60,52 +97,87 @@ Definition conc_plain (opc : Z) (v : env) (fr : frame) (w : unit) : plain * unit
   else if opc =? 22 then ok1 (Z.land a b) else if opc =? 23 then ok1 (Z.lor a b) else if opc =? 24 then ok1 (Z.lxor a b)
   else if opc =? 25 then ok1 (W256 - 1 - a)
   else if opc =? 54 then ok1 (v_insz v) else if opc =? 56 then ok1 (zlen (v_code v)) else if opc =? 61 then ok1 (f_rds fr)
-  else if (opc =? 55) || (opc =? 57) || (opc =? 94) then ok0                  (* CALLDATACOPY CODECOPY MCOPY *)
+  else if opc =? 55 then unknown_if (negb (c mod U64 =? 0))                 (* CALLDATACOPY *)
+  else if opc =? 94 then unknown_if (negb (c mod U64 =? 0))                 (* MCOPY *)
+  else if opc =? 60 then unknown_if (negb (sget s 3 mod U64 =? 0))          (* EXTCODECOPY *)
+  else if opc =? 57 then                                                     (* CODECOPY: known bytes *)
+    let l := c mod U64 in
+    if l =? 0 then ok0
+    else if 4096 <? l then unknown_if true
+    else let src := if b <? U64 then skipn (Z.to_nat b) (v_code v) else [] in
+         let bs := firstn (Z.to_nat l) (src ++ repeat 0 (Z.to_nat l)) in
+         (POk [] pc 0, write_mem w d (a mod U64) bs)
   else if opc =? 62 then                                                     (* RETURNDATACOPY *)
-    if negb (b <? U64) then (PErr, tt)
+    if negb (b <? U64) then (PErr, w)
     else let e := (b + c) mod W256 in
-         if negb (e <? U64) || (f_rds fr <? e) then (PErr, tt) else ok0
-  else if (opc =? 80) || (opc =? 82) || (opc =? 83) || (opc =? 85) then ok0  (* POP MSTORE MSTORE8 SSTORE *)
-  else if opc =? 86 then if valid_jumpdest (v_code v) a then (POk [] a 0, tt) else (PErr, tt)
+         if negb (e <? U64) || (f_rds fr <? e) then (PErr, w) else unknown_if (negb (c mod U64 =? 0))
+  else if (opc =? 80) || (opc =? 85) then ok0                                (* POP SSTORE *)
+  else if opc =? 81 then                                                     (* MLOAD: known memory or opaque *)
+    match get_mem w d with
+    | Some m => ok1 (be_word (read_mem m (a mod U64) 32))
+    | None => ok1 0
+    end
+  else if opc =? 82 then (POk [] pc 0, write_mem w d (a mod U64) (word_bytes b))      (* MSTORE *)
+  else if opc =? 83 then (POk [] pc 0, write_mem w d (a mod U64) [b mod 256])         (* MSTORE8 *)
+  else if opc =? 86 then if valid_jumpdest (v_code v) a then (POk [] a 0, w) else (PErr, w)
   else if opc =? 87 then
-    if b =? 0 then (POk [] (pc + 1) 0, tt)
-    else if valid_jumpdest (v_code v) a then (POk [] a 0, tt) else (PErr, tt)
+    if b =? 0 then (POk [] (pc + 1) 0, w)
+    else if valid_jumpdest (v_code v) a then (POk [] a 0, w) else (PErr, w)
   else if opc =? 88 then ok1 pc else if opc =? 89 then ok1 (f_mlen fr) else if opc =? 90 then ok1 (f_gas fr)
   else if opc =? 91 then ok0 else if opc =? 95 then ok1 0
+  else if opc =? 93 then (if v_ro v then (PUnsupported, w) else ok0)        (* TSTORE checks readOnly itself *)
   else if (96 <=? opc) && (opc <=? 127) then
-    (POk [push_value (v_code v) pc (opc - 95)] (pc + (opc - 95)) 0, tt)
+    (POk [push_value (v_code v) pc (opc - 95)] (pc + (opc - 95)) 0, w)
   else if (128 <=? opc) && (opc <=? 143) then                               (* DUPn: pops n, pushes n+1 *)
-    let n := Z.to_nat (opc - 127) in (POk (sget s (n - 1) :: firstn n s) pc 0, tt)
+    let n := Z.to_nat (opc - 127) in (POk (sget s (n - 1) :: firstn n s) pc 0, w)
   else if (144 <=? opc) && (opc <=? 159) then
     let n := Z.to_nat (opc - 143) in                                         (* SWAPn: pops n+1, pushes n+1 *)
-    (POk (sget s n :: firstn (n - 1) (skipn 1 s) ++ [a]) pc 0, tt)
+    (POk (sget s n :: firstn (n - 1) (skipn 1 s) ++ [a]) pc 0, w)
   else if (160 <=? opc) && (opc <=? 164) then ok0                            (* LOGn *)
-  else if (opc =? 243) || (opc =? 253) then (POk [] pc (if b mod U64 =? 0 then 0 else b mod U64), tt)
+  else if (opc =? 243) || (opc =? 253) then (POk [] pc (if b mod U64 =? 0 then 0 else b mod U64), w)
   else if opc =? 255 then ok0
-  else (PUnsupported, tt).
+  else if existsb (Z.eqb opc) opaque_ops then ok1 0
+  else (PUnsupported, w).
 
-Definition conc_plan (opc : Z) (v : env) (fr : frame) (w : unit) : plan * unit :=
+Definition conc_plan (opc : Z) (v : env) (fr : frame) (w : world) : plan * world :=
+  let s := f_stk fr in let d := v_depth v in
+  if (opc =? 241) || (opc =? 242) || (opc =? 244) || (opc =? 250) then
+    let addr := sget s 1 mod 2 ^ 160 in
+    let hasval := (opc =? 241) || (opc =? 242) in
+    let value := if hasval then sget s 2 else 0 in
+    let insz := (if hasval then sget s 4 else sget s 3) mod U64 in
+    let retsz := (if hasval then sget s 6 else sget s 5) mod U64 in
+    (* whatever comes back is copied to [retOffset, retOffset+retSize): unknown bytes *)
+    let w1 := if retsz =? 0 then w else set_mem w d None in
+    if negb (value =? 0) then ((if w_selfbal w then CUnsupported else CImm true false 0), w1)
+    else if addr =? SELF then (CEnter (w_self w) (opc =? 250) insz, set_mem w1 (d + 1) (Some []))
+    else
+      let words := (insz + 31) / 32 in
+      if addr =? 2 then (CPre (60 + 12 * words) true 32, w1)
+      else if addr =? 3 then (CPre (600 + 120 * words) true 32, w1)
+      else if addr =? 4 then (CPre (15 + 3 * words) true insz, w1)
+      else if (1 <=? addr) && (addr <=? 18) then (CUnsupported, w1)
+      else (CImm true true 0, w1)                                      (* no account / no code there *)
+  else if opc =? 247 then                                              (* AUTHCALL: never authorised here *)
+    (CImm false false 0, warm w (sget s 2 mod 2 ^ 160))
+  else if (opc =? 240) || (opc =? 245) then                            (* CREATE / CREATE2 *)
+    if w_sub w =? 1 then (CRefused, w)
+    else
+      let value := sget s 0 in let off := sget s 1 mod U64 in let size := sget s 2 mod U64 in
+      if negb (value =? 0) then ((if w_selfbal w then CUnsupported else CImm true false 0), w)
+      else if 8192 <? size then (CUnsupported, w)
+      else match get_mem w d with
+           | None => (CUnsupported, w)
+           | Some m => (CEnter (read_mem m off size) false 0, set_mem w (d + 1) (Some []))
+           end
+  else (CUnsupported, w).
+
+Definition conc_genv (opc : Z) (v : env) (fr : frame) (w : world) : genv :=
   let s := f_stk fr in
-  let addr := sget s 1 mod 2 ^ 160 in
-  let hasval := (opc =? 241) || (opc =? 242) in
-  let value := if hasval then sget s 2 else 0 in
-  let insz := (if hasval then sget s 4 else sget s 3) mod U64 in
-  if negb ((opc =? 241) || (opc =? 242) || (opc =? 244) || (opc =? 250)) then (CUnsupported, tt)
-  else if negb (value =? 0) then (CImm true false 0, tt)              (* the account holds no balance *)
-  else if addr =? SELF then (CEnter (v_code v) (opc =? 250) insz, tt)
-  else
-    let words := (insz + 31) / 32 in
-    if addr =? 2 then (CPre (60 + 12 * words) true 32, tt)
-    else if addr =? 3 then (CPre (600 + 120 * words) true 32, tt)
-    else if addr =? 4 then (CPre (15 + 3 * words) true insz, tt)
-    else if (1 <=? addr) && (addr <=? 18) then (CUnsupported, tt)
-    else (CImm true true 0, tt).                                       (* no account / no code there *)
+  let addr := (if opc =? 255 then sget s 0 else if opc =? 247 then sget s 2 else sget s 1) mod 2 ^ 160 in
+  mkGenv (negb (addr =? SELF)) (negb (existsb (Z.eqb addr) (w_warm w))) (w_selfbal w).
 
-Definition conc_genv (opc : Z) (v : env) (fr : frame) (w : unit) : genv :=
-  let addr := sget (f_stk fr) 1 mod 2 ^ 160 in
-  mkGenv (negb (addr =? SELF)) true false.
-
-Definition conc : oracle unit := mkO unit conc_genv conc_plain conc_plan (fun _ _ _ _ => 0).
+Definition conc : oracle world := mkO world conc_genv conc_plain conc_plan (fun _ _ _ _ => 0).
 
 Definition FUEL : nat := (600 * 1000)%nat.
 
@@ -121,10 +193,23 @@ Inductive tcase :=
 | TMem (name : string) (stk : list Z) (has : bool) (size : Z) (ovf : bool)
 | TDyn (p026 p015 : bool) (name : string) (opc : Z) (empty cold : bool) (stk : list Z)
        (mlen fee msize cgas : Z) (ok : bool) (cost : Z)
+| TExec (opc : Z) (name : string) (g : ginfo)
+| TPre (addr : Z) (input : string) (gas : Z)
 | TArity (fork opc : Z) (min_obs post : Z) (limit_ok : bool)
-| TRun (fork : Z) (p015 : bool) (code : string) (gas insz : Z) (cls gasleft rsz : Z).
+| TRun (fork : Z) (p015 : bool) (code : string) (gas insz : Z) (cls gasleft rsz : Z)
+| TRunW (fork : Z) (p015 : bool) (code : string) (gas insz : Z) (selfbal : bool) (sub : Z) (cls gasleft rsz : Z).
 
 Definition code_of_hex (h : string) : list Z := map Z.of_N (unhex h).
+
+Definition run_case (fork : Z) (p015 : bool) (code : string) (gas insz : Z) (selfbal : bool) (sub : Z) (cls gasleft rsz : Z) : bool :=
+  let cfg := mkCfg (table_of fork) (4 <=? fork) p015 in
+  let c := code_of_hex code in
+  match fst (call_top cfg conc FUEL c gas insz (mkWd [] [] c selfbal sub)) with
+  | ODone false g sz => (cls =? 0) && (g =? gasleft) && (sz =? rsz)
+  | ODone true g sz => (cls =? 1) && (g =? gasleft) && (sz =? rsz)
+  | OFault f => (cls =? fault_code f) && (gasleft =? 0)
+  | OFuel => false
+  end.
 
 Definition check (c : tcase) : bool :=
   match c with
@@ -141,15 +226,11 @@ Definition check (c : tcase) : bool :=
       | Some None => negb ok
       | Some (Some (g, _, _)) => ok && (g =? cost)
       end
+  | TExec opc name g => exec_matches name opc g
+  | TPre addr input gas => pre_gas addr (map Z.of_N (unhex input)) =? gas
   | TArity fork opc min_obs post limit_ok =>
       let e := row_of fork opc in
       e_def e && (min_obs =? e_min e) && ((post =? -1) || (post =? pushes_of e)) && limit_ok
-  | TRun fork p015 code gas insz cls gasleft rsz =>
-      let cfg := mkCfg (table_of fork) (4 <=? fork) p015 in
-      match fst (call_top cfg conc FUEL (code_of_hex code) gas insz tt) with
-      | ODone false g sz => (cls =? 0) && (g =? gasleft) && (sz =? rsz)
-      | ODone true g sz => (cls =? 1) && (g =? gasleft) && (sz =? rsz)
-      | OFault f => (cls =? fault_code f) && (gasleft =? 0)
-      | OFuel => false
-      end
+  | TRun fork p015 code gas insz cls gasleft rsz => run_case fork p015 code gas insz false 0 cls gasleft rsz
+  | TRunW fork p015 code gas insz selfbal sub cls gasleft rsz => run_case fork p015 code gas insz selfbal sub cls gasleft rsz
   end.
